@@ -1,9 +1,11 @@
 """C17 — Persistent parameters: crash-atomic, exact round trip, retried after failure.
 
 Runs real `PersistentMixin` modules on a fault-injecting file layer (`FaultFS`, installed by assigning
-`frappy.persistent.open` / `frappy.persistent.os` from outside), records every file operation and a
-snapshot of the directory after each one, and lets the Lean side (model `Small/Persist`, monitors `Spec/C17`)
-compare and judge.  Nothing about the property is decided here."""
+`frappy.persistent.open` / `frappy.persistent.os` from outside).  The code gets Python's own buffered text file; what is
+logged, may fail and is followed by a snapshot of the directory (read through an independent descriptor) are the
+operations that reach the operating system: open, every write of the buffered writer on the raw file, its close,
+os.rename, os.remove.  The Lean side (model `Small/Persist`, monitors `Spec/C17`) compares and judges.  Nothing about the
+property is decided here."""
 import builtins
 import io
 import json
@@ -16,26 +18,36 @@ from check import Result
 from vlib.shrink import ddmin
 
 META = {
-    'level_text': 'Theorems for every chunking of the written text, every crash point, every single I/O fault with any partial write, '
-                  'every history of set/save/writeInit/load/factory-reset actions: crash_atomic, fault_atomic (target = complete old or '
+    'level_text': 'Theorems for every chunking in which the written text reaches the file descriptor, every crash point, every I/O fault '
+                  'with any partial write (and any further, possibly failing, writes of the file object when it is closed on the way out: '
+                  'disk full), every history of set/save/writeInit/load/factory-reset actions: crash_atomic, fault_atomic (target = complete old or '
                   'complete new snapshot, tmp removed), save_outcome, failed_save_retried, believed_on_disk and believed_on_disk_world '
                   '(persistentData always equals what a restart would read - for the save machine and for the whole module machine), '
-                  'saved_when_done / save_leaves_current_file, startup_file_current, roundtrip (load after save restores every persistent '
-                  'parameter under the codec law import(export v) = v), cfg_precedence, reload_restores (loadParameters() in any state '
-                  'restores every usable stored value unless the write method refuses it), reload_from_this_run (start-up, any history, '
-                  'then loadParameters(): every persistent parameter ends with a value of this run - a value an earlier run stored never '
-                  'overrides what start-up decided from the configuration), reload_after_startup_keeps_values, load_total / '
-                  'unusable_entry_removes_only_itself.  The model is tied to frappy/persistent.py by a correspondence run on real modules '
-                  'over all datatypes under fault injection; the Lean monitors judge every recorded directory snapshot, retry trial, '
-                  'restart, and every loadParameters() of the histories and on damaged files.',
-    'level_note': 'Durability is modelled at the granularity of Python-level file operations (open, each write, close, rename, remove) with '
-                  'every write reaching the file at once and an atomic rename; the code issues no fsync, and power-loss reordering of data '
-                  'and metadata is NOT modelled.  Saves are single-threaded in the model (two threads saving the same module concurrently '
-                  'share one tmp file; not covered).  json, the datatypes and Python == are oracles of the model (tables recorded from the '
-                  'real functions).  The reload clauses (ReloadRestores, ReloadFromThisRun) extend the statement\'s loading / precedence '
-                  'clauses to loadParameters(); a parameter without usable stored entry is bound only by ReloadFromThisRun.',
+                  'saved_when_done / save_leaves_current_file, auto_save_stays_registered (the callback that saves on every update of an '
+                  '`auto` parameter stays registered whatever fails) and failed_auto_save_retried (after any history, failed automatic saves '
+                  'included, the next undisturbed update of an `auto` parameter leaves a current file), startup_file_current, roundtrip (load after '
+                  'save restores every persistent parameter under the codec law import(export v) = v), cfg_precedence, reload_restores '
+                  '(loadParameters() in any state restores every usable stored value unless the write method refuses it), reload_from_this_run '
+                  '(start-up, any history, then loadParameters(): every persistent parameter ends with a value of this run - a value an earlier '
+                  'run stored never overrides what start-up decided from the configuration), reload_after_startup_keeps_values, load_total / '
+                  'unusable_entry_removes_only_itself.  The model is tied to frappy/persistent.py and the callback loop of '
+                  'Module.announceUpdate by a correspondence run on real modules over all datatypes: the code writes through Python\'s own '
+                  'buffered text file onto a raw file whose open / write / close, and os.rename / os.remove, are logged, can fail, and are each '
+                  'followed by a snapshot of the directory taken by an independent reader; the Lean monitors judge every snapshot, retry trial '
+                  '(explicit and automatic saves), restart, and every loadParameters() of the histories and on damaged files.',
+    'level_note': 'Durability is modelled at the granularity of the operations that reach the operating system (open, each write of the '
+                  'buffered writer on the descriptor, close, rename, remove), for the default buffering and for small buffers; rename is atomic; '
+                  'the code issues no fsync, and page-cache write-back / power-loss reordering of data and metadata is NOT modelled.  Faults: one '
+                  'failing operation per save, or a failing write followed by failing writes (disk full); a failing remove in the clean-up after '
+                  'another fault is not injected.  Saves are single-threaded in the model (two threads saving the same module concurrently '
+                  'share one tmp file; not covered).  json, the datatypes, Python == and the chunking done by Python\'s io layers are oracles of the '
+                  'model (tables recorded from the real functions).  The reload clauses (ReloadRestores, ReloadFromThisRun) extend the '
+                  'statement\'s loading / precedence clauses to loadParameters(); a parameter without usable stored entry is bound only by '
+                  'ReloadFromThisRun.',
     'trusted': [
-        'durability granularity: Python file operations, write-through, atomic os.rename, no reordering (no fsync in the code; power loss not modelled)',
+        'durability granularity: descriptor-level operations as issued by Python\'s io stack, atomic os.rename, no reordering (no fsync in the '
+        'code; power loss not modelled); the file object contract "close() has handed everything written to the descriptor, or raises" is '
+        'checked on every recorded save, not proved',
         'json.dump/json.load, datatype import_value/export_value/validate are oracles; the laws assumed of them by roundtrip and the reload '
         'theorems - import(export v) = v, and validate hands back unchanged (or refuses) a value an import produced - are tested on every '
         'imported value of every case (law.* counters; a broken law fails the check)',
@@ -43,11 +55,13 @@ META = {
         'import respects Python == of decoded files (hypothesis of reload_from_this_run, used only when a save found nothing to write); '
         'exercised through the monitors, not tested separately',
         'driver glue: Python == on decoded JSON is `pyEq` (True == 1, 1.0 == 1, exact decimal comparison)',
-        'Module.__init__ (values, given flags, configured writes) is an input of the model (C10)',
+        'Module.__init__ (values, given flags, configured writes) is an input of the model (C10); the persistent / auto flags given to the '
+        'model come from the declaration (class definition and configuration), not from the module',
+        'announceUpdate is modelled for valid values whose update is not omitted (the harness clock advances 10 s per reading)',
         'an OSError while *reading* the file and a failing pathlib mkdir are outside the statement and not injected',
     ],
     'modelled_not_verified': ['json', 'frappy.datatypes import_value/export_value/validate', 'Module.__init__/_handle_writes',
-                              'os.rename atomicity'],
+                              'os.rename atomicity', 'io.TextIOWrapper / io.BufferedWriter (chunking, behaviour of close() after a failed write)'],
     'assumptions': ['one save at a time per module', 'write methods accept and return the value'],
 }
 
@@ -1533,10 +1547,15 @@ def run(ctx):
     res = Result()
     res.rule = ('histories: generated module classes (1..6 parameters over float/int/scaled/bool/enum/string/blob/array/tuple/struct, '
                 'flags on/auto/off/none, with and without write methods, configured values) x histories of set/save/writeInit/load/'
-                'factoryReset with faults kept in the history; at every save of the history: an injected OSError at EVERY file operation '
-                '(writes also with a partial effect) each followed by a healthy save, a directory snapshot after EVERY operation judged by '
-                'the Lean monitor, restarts from crash snapshots; non-trivial = at least two saves that touched the disk and a fork of fault '
-                'trials.  corruptions: truncation at every byte (files <= 400 B), bit flips, type changes, unknown/missing keys, bad '
+                'factoryReset, persistent flag in any spelling / set in the configuration; the file object is Python\'s buffered text file '
+                '(default buffering in 40 %, small buffers otherwise), operations = open / write / close on its raw file, rename, remove; '
+                'faults placed with the help of a fault-free run (35 % of the saving steps: open, first / last write, close, rename, remove, '
+                'random; 30 % of them as disk-full: later writes fail too), a failed automatic save is followed in 70 % by further updates '
+                'of the same parameter and nothing else; at every undisturbed saving step of the history: an injected OSError at EVERY '
+                'operation (writes also with a partial effect and as disk-full), through the trigger of the step (saveParameters() or the '
+                'update of the auto parameter), each followed by the next healthy trigger; a directory snapshot after EVERY operation '
+                'judged by the Lean monitor, restarts from crash snapshots, retry judged along the history as well; non-trivial = at least '
+                'two saves that touched the disk and a fork of fault trials.  corruptions: truncation at every byte (files <= 400 B), bit flips, type changes, unknown/missing keys, bad '
                 'entries, each met by a restart and by loadParameters() of a running module (quick tier: 30 % of the truncations and bit flips '
                 'for the latter); non-trivial = readable dictionary that '
                 'changes some restored value.  40 % of the histories start from the file of an earlier run, 60 % of those written under '
